@@ -48,17 +48,39 @@ def r1_grammar(repo=None):
     # structure: files are taken only from matched sub-directories of directories holding a properties file
     m = pyfront.mod("list_drf", repo)
 
-    def match_guarded(q, regex_name, sink_attr, what, why):
-        g = m.cfg(q)
-        f = m.fn(q)
+    names = matcher_names(repo)
+    YMq = kernel_name(repo)
+    SL = slice_name(repo)
+    DD = decorate_name(repo)
+
+    def match_guarded(view, q, regex_name, sink_attr, what, why):
+        g = view.cfg(q)
+        f = view.fn(q)
         mv = None
         for n in pyfront.walk_no_nested(f):
             if isinstance(n, ast.Assign) and isinstance(n.value, ast.Call) and isinstance(n.value.func, ast.Attribute) \
                     and n.value.func.attr == "match" and pyfront.dotted(n.value.func.value) == regex_name \
                     and isinstance(n.targets[0], ast.Name):
                 mv = n.targets[0].id
+        # the list may be built under another name and handed over by (tuple) assignment: follow plain copies
+        aliases = {sink_attr}
+        changed = True
+        while changed:
+            changed = False
+            for n in pyfront.walk_no_nested(f):
+                if isinstance(n, ast.Assign) and len(n.targets) == 1:
+                    t, v = n.targets[0], n.value
+                    pairs = []
+                    if isinstance(t, ast.Name) and isinstance(v, ast.Name):
+                        pairs.append((t.id, v.id))
+                    if isinstance(t, (ast.Tuple, ast.List)) and isinstance(v, (ast.Tuple, ast.List)) and len(t.elts) == len(v.elts):
+                        pairs += [(a_.id, b_.id) for a_, b_ in zip(t.elts, v.elts) if isinstance(a_, ast.Name) and isinstance(b_, ast.Name)]
+                    for a_, b_ in pairs:
+                        if a_ in aliases and b_ not in aliases:
+                            aliases.add(b_)
+                            changed = True
         sinks = [x for x in g.nodes if any(isinstance(c.func, ast.Attribute) and c.func.attr == "append"
-                                           and pyfront.dotted(c.func.value) == sink_attr for c in pyfront.node_calls(x))]
+                                           and pyfront.dotted(c.func.value) in aliases for c in pyfront.node_calls(x))]
         if mv is None or not sinks:
             raise AnalysisError("%s: `%s.match(...)` result or `%s.append` not found" % (q, regex_name, sink_attr))
         if all(pyutil.truth_guarded(g, x.id, mv) for x in sinks):
@@ -66,48 +88,55 @@ def r1_grammar(repo=None):
         else:
             r.violation(m.rel, q, "%s.append not guarded by the %s match" % (sink_attr, regex_name), why, line=sinks[0].line)
 
-    dd = m.fn("_decorate_drf_files")
+    dd = m.fn(DD)
     ret = [n for n in pyfront.walk_no_nested(dd) if isinstance(n, ast.Return) and isinstance(n.value, ast.Name)]
-    if not ret:
-        raise AnalysisError("_decorate_drf_files: returned list not found")
-    match_guarded("_decorate_drf_files", "file_regex", ret[0].value.id,
-                  "a file name is kept only if file_regex.match(name) succeeded",
+    rparam = [a_.arg for a_ in dd.args.args if any(isinstance(x, ast.Call) and isinstance(x.func, ast.Attribute) and x.func.attr == "match"
+              and isinstance(x.func.value, ast.Name) and x.func.value.id == a_.arg for x in ast.walk(dd))]
+    if not ret or len(rparam) != 1:
+        raise AnalysisError("%s: returned list / regex parameter not found" % DD)
+    match_guarded(m, DD, rparam[0], ret[0].value.id,
+                  "a file name is kept only if %s.match(name) succeeded" % rparam[0],
                   "files that do not match the requested kind could be listed")
-    ym = m.fn(YM)
+    kv = m.flat(YMq, keep=(SL, DD))
+    ym = kv.fn()
     subl = None
     for n in pyfront.walk_no_nested(ym):
-        if isinstance(n, ast.Call) and pyfront.call_name(n) == "_decorated_list_slice" and n.args and isinstance(n.args[0], ast.Name) \
+        if isinstance(n, ast.Call) and pyfront.call_name(n) == SL and n.args and isinstance(n.args[0], ast.Name) \
                 and any(k.arg == "ffill" and pyfront.const(k.value) is True for k in n.keywords):
             subl = n.args[0].id
     if subl is None:
-        raise AnalysisError("%s: sub-directory list (sliced with ffill=True) not found" % YM)
-    match_guarded(YM, "_RE_SUBDIR", subl, "only directory names matching _RE_SUBDIR are searched for files",
+        raise AnalysisError("%s: sub-directory list (sliced with ffill=True) not found" % YMq)
+    match_guarded(kv, YMq, names["_RE_SUBDIR"], subl, "only directory names matching the sub-directory grammar are searched for files",
                   "files outside the timestamped sub-directory structure could be listed")
     if any(isinstance(n, ast.Assign) and isinstance(n.targets[0], ast.Subscript) and pyfront.dotted(n.targets[0].value) == "dirs"
            and isinstance(n.targets[0].slice, ast.Slice) for n in pyfront.walk_no_nested(ym)):
-        r.ok("%s %s dirs[:] = ..." % (m.rel, YM), "timestamped sub-directories are removed from the recursion list in place")
+        r.ok("%s %s dirs[:] = ..." % (m.rel, YMq), "timestamped sub-directories are removed from the recursion list in place")
     else:
-        r.violation(m.rel, YM, "dirs[:] not reassigned", "os.walk would descend into the timestamped sub-directories and list their "
+        r.violation(m.rel, YMq, "dirs[:] not reassigned", "os.walk would descend into the timestamped sub-directories and list their "
                     "content again as if they were channels", line=ym.lineno)
-    il = m.fn("ilsdrf")
-    gi = m.cfg("ilsdrf")
-    calls = [n for n in gi.nodes if any(pyfront.call_name(c) == YM for c in pyfront.node_calls(n))]
-    if len(calls) != 2:
-        raise AnalysisError("ilsdrf: expected 2 call sites of %s, found %d" % (YM, len(calls)))
-    # the variable holding the properties files of the directory is the 3rd argument
-    pv = set()
-    for n in calls:
-        for c in pyfront.node_calls(n):
-            if pyfront.call_name(c) == YM and len(c.args) >= 3 and isinstance(c.args[2], ast.Name):
-                pv.add(c.args[2].id)
-    if len(pv) == 1 and all(pyutil.truth_guarded(gi, n.id, list(pv)[0]) for n in calls):
-        r.ok("%s:%s ilsdrf" % (m.rel, il.lineno), "data files are only listed for directories that hold a properties file (both call sites "
-             "reachable only when `%s` is non-empty)" % list(pv)[0])
-    elif len(pv) != 1:
-        raise AnalysisError("ilsdrf: properties argument of %s not recognised" % YM)
-    else:
-        r.violation(m.rel, "ilsdrf", "%s called without a non-empty properties list" % YM, "files could be listed from a directory "
-                    "that is not a channel", line=il.lineno)
+    # every call site of the per-channel generator is reachable only with a non-empty list of properties files
+    params = [a_.arg for a_ in m.fn(YMq).args.args]
+    n_sites = 0
+    for q2, f2 in m.functions.items():
+        if "." in q2:
+            continue
+        g2 = None
+        for c in pyfront.walk_no_nested(f2):
+            if isinstance(c, ast.Call) and pyfront.call_name(c) == YMq:
+                n_sites += 1
+                g2 = g2 or m.cfg(q2)
+                node = [x for x in g2.nodes if any(cc is c for cc in pyfront.node_calls(x))]
+                pa = c.args[2] if len(c.args) >= 3 else pyfront.kwarg(c, params[2] if len(params) > 2 else "props")
+                if not node or not isinstance(pa, ast.Name):
+                    raise AnalysisError("%s: properties argument of %s not recognised" % (q2, YMq))
+                if pyutil.truth_guarded(g2, node[0].id, pa.id):
+                    r.ok("%s:%s %s" % (m.rel, c.lineno, q2), "data files are only listed for directories that hold a properties file (`%s` "
+                         "is non-empty here)" % pa.id)
+                else:
+                    r.violation(m.rel, q2, "%s called without a non-empty properties list" % YMq, "files could be listed from a directory "
+                                "that is not a channel", line=c.lineno)
+    if n_sites < 2:
+        raise AnalysisError("list_drf: expected 2 call sites of %s, found %d" % (YMq, n_sites))
     r.guard(11)
     return r
 
@@ -127,6 +156,36 @@ def matcher_names(repo=None):
         fo.name("list_drf", ref)
         out[ref] = fo.aliases.get(("list_drf", ref), ref)
     return out
+
+
+def slice_name(repo=None):
+    """the bisecting window function: the module function that calls bisect.*"""
+    m = pyfront.mod("list_drf", repo)
+    c = [q for q, f in m.functions.items() if "." not in q and any(
+        isinstance(x, ast.Call) and (pyfront.call_name(x) or "").startswith("bisect.") for x in ast.walk(f))]
+    if len(c) != 1:
+        raise AnalysisError("list_drf: the bisecting slice function was not found exactly once (%s)" % c)
+    return c[0]
+
+
+def decorate_name(repo=None):
+    """the function that turns file names into (time, path) pairs: takes a regex parameter, calls <param>.match(..) in a loop and
+    appends tuples to the list it returns"""
+    m = pyfront.mod("list_drf", repo)
+    out = []
+    for q, f in m.functions.items():
+        if "." in q:
+            continue
+        params = {a.arg for a in f.args.args}
+        has_match = any(isinstance(x, ast.Call) and isinstance(x.func, ast.Attribute) and x.func.attr == "match"
+                        and isinstance(x.func.value, ast.Name) and x.func.value.id in params for x in ast.walk(f))
+        appends_tuple = any(isinstance(x, ast.Call) and isinstance(x.func, ast.Attribute) and x.func.attr == "append" and x.args
+                            and isinstance(x.args[0], ast.Tuple) for x in ast.walk(f))
+        if has_match and appends_tuple and any(isinstance(x, ast.Return) and isinstance(x.value, ast.Name) for x in ast.walk(f)):
+            out.append(q)
+    if len(out) != 1:
+        raise AnalysisError("list_drf: the function decorating file names with their time was not found exactly once (%s)" % out)
+    return out[0]
 
 
 def kernel_name(repo=None):
@@ -254,31 +313,54 @@ def _classify(node, var, sorted_helpers=()):
             kind = None  # helper returns its (sorted) argument unchanged or a freshly sorted list: state preserved
         else:
             kind = "mut"
+    if isinstance(a, ast.Assign) and any(isinstance(t, (ast.Tuple, ast.List)) and any(
+            isinstance(e, ast.Name) and e.id == var for e in t.elts) for t in a.targets):
+        kind = "mut"       # bound by tuple unpacking: contents unknown
     if isinstance(a, ast.AugAssign) and isinstance(a.target, ast.Name) and a.target.id == var:
         kind = "mut"
     return kind
 
 
 def sortedness_preserving_helpers(m):
-    """Module functions f(..., lst, ...) whose every return value is either the parameter `lst` as received or a list that
-    was sort()ed after its last modification (so: sorted argument in => sorted result out)."""
+    """Module functions whose every return value is a sorted list provided their list argument was sorted: each `return X` returns
+    either a parameter that the function never modifies, or a list that was sort()ed after its last modification on every path
+    to that return (so: sorted argument in => sorted result out)."""
     out = set()
     for q, f in m.functions.items():
         if "." in q or "<locals>" in q:
             continue
-        rets = [n for n in pyfront.walk_no_nested(f) if isinstance(n, ast.Return) and isinstance(n.value, ast.Name)]
         allrets = [n for n in pyfront.walk_no_nested(f) if isinstance(n, ast.Return)]
+        rets = [n for n in allrets if isinstance(n.value, ast.Name)]
         if not rets or len(rets) != len(allrets):
             continue
-        var = rets[0].value.id
-        if any(x.value.id != var for x in rets) or var not in [a_.arg for a_ in f.args.args]:
-            continue
+        params = [a_.arg for a_ in f.args.args]
         g = m.cfg(q)
-        sorts = [x.id for x in g.nodes if _classify(x, var) == "sort"]
-        muts = [x for x in g.nodes if _classify(x, var) == "mut"]
-        rnodes = [x for x in g.nodes if x.kind == "return"]
-        if muts and all(not any(rn.id in g.reach([mu.id], avoid=sorts, skip_labels=("exc",)) for rn in rnodes) for mu in muts):
+        ok = True
+        any_param = False
+        any_sorted = False
+        for rn_ast in rets:
+            var = rn_ast.value.id
+            rnode = [x for x in g.nodes if x.ast is rn_ast]
+            if not rnode:
+                ok = False
+                break
+            sorts = [x.id for x in g.nodes if _classify(x, var) == "sort"]
+            muts = [x for x in g.nodes if _classify(x, var) == "mut"]
+            if var in params and not muts:
+                any_param = True
+                continue
+            if muts and not any(rnode[0].id in g.reach([mu.id], avoid=sorts, skip_labels=("exc",)) for mu in muts):
+                any_sorted = True
+                continue
+            if var in params and muts and not any(rnode[0].id in g.reach([mu.id], avoid=sorts, skip_labels=("exc",)) for mu in muts):
+                any_sorted = True
+                continue
+            ok = False
+            break
+        if ok and (any_sorted or any_param) and any_sorted:
             out.add(q)
+        elif ok and any_param and not any_sorted:
+            pass    # identity function on its argument: nothing to say
     return out
 
 
@@ -286,24 +368,27 @@ def r3_sorted_before_sliced(repo=None):
     r = Rule("C14.R3", "lists are sorted before they are bisected; reversal is applied only to the sliced result (typestate)")
     m = pyfront.mod("list_drf", repo)
     helpers = sortedness_preserving_helpers(m)
+    SL = slice_name(repo)
     n_calls = 0
-    for q, f in m.functions.items():
-        if "<locals>" in q:
+    for q, f0 in m.functions.items():
+        if "<locals>" in q or "." in q or q == SL:
             continue
+        view = m.flat(q, keep=(SL,) + tuple(helpers))
+        f = view.fn()
         g = None
         for c in pyfront.walk_no_nested(f):
-            if not (isinstance(c, ast.Call) and pyfront.call_name(c) == "_decorated_list_slice" and c.args and isinstance(c.args[0], ast.Name)):
+            if not (isinstance(c, ast.Call) and pyfront.call_name(c) == SL and c.args and isinstance(c.args[0], ast.Name)):
                 continue
             n_calls += 1
-            g = g or m.cfg(q)
+            g = g or view.cfg()
             var = c.args[0].id
             n = [x for x in g.nodes if any(cc is c for cc in pyfront.node_calls(x))][0]
             sorts = [x.id for x in g.nodes if _classify(x, var, helpers) == "sort"]
             muts = [x for x in g.nodes if _classify(x, var, helpers) == "mut"]
             bad = [x for x in muts if n.id in g.reach([x.id], avoid=sorts, skip_labels=("exc",)) and x.id != n.id]
-            site = "%s:%s %s _decorated_list_slice(%s)" % (m.rel, n.line, q, var)
+            site = "%s:%s %s %s(%s)" % (m.rel, n.line, q, SL, var)
             if bad:
-                r.violation(m.rel, q, "_decorated_list_slice(%s) after `%s`" % (var, bad[0].label[:60]),
+                r.violation(m.rel, q, "%s(%s) after `%s`" % (SL, var, bad[0].label[:60]),
                             "the list can reach the bisection without a sort() after its last modification: bisect on an unsorted list "
                             "selects the wrong window", line=n.line, path=g.describe(g.path(bad[0].id, n.id, avoid=sorts) or []))
             elif not muts:
@@ -323,7 +408,7 @@ def r3_sorted_before_sliced(repo=None):
                         r.violation(m.rel, q, norm(ast.unparse(cc)), "reversal applied to the whole list instead of the sliced result",
                                     line=cc.lineno)
     if n_calls < 2:
-        raise AnalysisError("expected 2 _decorated_list_slice calls in list_drf, found %d" % n_calls)
+        raise AnalysisError("expected 2 calls of the bisecting slice %s in list_drf, found %d" % (SL, n_calls))
     r.guard(2)
     return r
 
@@ -377,8 +462,9 @@ def r4_robust_listing(repo=None):
     for q, f in m.functions.items():
         if "<locals>" in q:
             continue
+        DDn = decorate_name(repo)
         lists = {n.targets[0].id for n in pyfront.walk_no_nested(f) if isinstance(n, ast.Assign) and isinstance(n.targets[0], ast.Name)
-                 and isinstance(n.value, ast.Call) and pyfront.call_name(n.value) == "_decorate_drf_files"}
+                 and isinstance(n.value, ast.Call) and pyfront.call_name(n.value) == DDn}
         if not lists:
             continue
         g = m.cfg(q)
@@ -403,41 +489,68 @@ def r4_robust_listing(repo=None):
                                     "IndexError makes the listing fail" % var, line=n.line)
     if n_sub < 1:
         r.note("no constant subscript of a list of decorated files remains (nothing to guard)")
-    r.guard(2)
+    r.guard(1)
     return r
 
 
 def r5_lookback_complete(repo=None):
+    """Role-based: the look-back loop is the loop (in any function, private helpers inlined) that walks *backwards* over the
+    sub-directories before the selected ones, lists each of them and leaves (break / return) when it found files.  Leaving must be
+    possible only with a non-empty list of matching files."""
     r = Rule("C14.R5", "the forward-fill look-back continues until a sub-directory that holds a matching file is found")
     m = pyfront.mod("list_drf", repo)
+    DD = decorate_name(repo)
+    SL = slice_name(repo)
     cands = []
-    for q, f in m.functions.items():
-        if "<locals>" in q:
+    for q, f0 in m.functions.items():
+        if "<locals>" in q or "." in q:
             continue
-        for lp in [n for n in pyfront.walk_no_nested(f) if isinstance(n, ast.For)]:
+        view = m.flat(q, keep=(DD, SL))
+        f = view.fn()
+        for lp in [n for n in ast.walk(f) if isinstance(n, ast.For)]:
             names = {pyfront.call_name(c) for c in ast.walk(lp) if isinstance(c, ast.Call)}
-            if "os.listdir" in names and "_decorate_drf_files" in names and any(isinstance(b, ast.Break) for b in ast.walk(lp)):
-                cands.append((q, f, lp))
-    # keep the innermost candidate(s): the per-sub-directory loop also contains the look-back loop
-    cands = [c for c in cands if not any(o is not c and o[1] is c[1] and o[2] is not c[2] and any(x is o[2] for x in ast.walk(c[2]))
-                                          for o in cands)]
+            leaves = [x for x in ast.walk(lp) if isinstance(x, (ast.Break, ast.Return))]
+            backwards = (isinstance(lp.iter, ast.Call) and pyfront.call_name(lp.iter) == "range" and len(lp.iter.args) == 3
+                         and norm(ast.unparse(lp.iter.args[2])) == "-1") or (
+                isinstance(lp.iter, ast.Call) and pyfront.call_name(lp.iter) == "reversed")
+            if "os.listdir" in names and DD in names and leaves and backwards:
+                cands.append((q, view, lp))
+    # a helper that is inlined into its caller shows the same loop twice (in the helper and in the caller): keep one per source position
+    uniq = {}
+    for q, view, lp in cands:
+        uniq.setdefault((lp.lineno, lp.col_offset), (q, view, lp))
+    cands = list(uniq.values())
+    cands = [c for c in cands if not any(o is not c and o[1] is c[1] and any(x is o[2] for x in ast.walk(c[2]) if x is not c[2]) for o in cands)]
     if len(cands) != 1:
-        raise AnalysisError("list_drf: the look-back loop (a for loop that lists earlier sub-directories, decorates their files and "
-                            "breaks) was not found exactly once (%d candidates)" % len(cands))
-    q, f, lp = cands[0]
+        raise AnalysisError("list_drf: the look-back loop (a backwards loop over earlier sub-directories that lists them, decorates their "
+                            "files and leaves) was not found exactly once (%d candidates)" % len(cands))
+    q, view, lp = cands[0]
     it = norm(ast.unparse(lp.iter))
     back_ok = False
     if isinstance(lp.iter, ast.Call) and pyfront.call_name(lp.iter) == "range" and len(lp.iter.args) == 3 \
-            and norm(ast.unparse(lp.iter.args[1])) == "-1" and norm(ast.unparse(lp.iter.args[2])) == "-1" \
-            and norm(ast.unparse(lp.iter.args[0])).endswith(".start - 1"):
-        back_ok = True
+            and norm(ast.unparse(lp.iter.args[1])) == "-1" and norm(ast.unparse(lp.iter.args[2])) == "-1":
+        start = lp.iter.args[0]
+        # start = <slice start> - 1, possibly through a parameter of a helper that receives <slice>.start
+        txt = norm(ast.unparse(start))
+        if txt.endswith(".start - 1"):
+            back_ok = True
+        elif isinstance(start, ast.BinOp) and isinstance(start.op, ast.Sub) and pyfront.const(start.right) == 1 and isinstance(start.left, ast.Name):
+            pname = start.left.id
+            f0 = m.fn(q)
+            params = [a_.arg for a_ in f0.args.args]
+            for qq, ff in m.functions.items():
+                for c in pyfront.walk_no_nested(ff):
+                    if isinstance(c, ast.Call) and pyfront.call_name(c) == q and pname in params and params.index(pname) < len(c.args):
+                        if norm(ast.unparse(c.args[params.index(pname)])).endswith(".start"):
+                            back_ok = True
     if isinstance(lp.iter, ast.Call) and pyfront.call_name(lp.iter) == "reversed" and isinstance(lp.iter.args[0], ast.Name):
         pname = lp.iter.args[0].id
+        f0 = m.fn(q)
         # the parameter must be bound, at the call site, to the part of the sub-directory list before the slice start
         for qq, ff in m.functions.items():
             for c in pyfront.walk_no_nested(ff):
                 if isinstance(c, ast.Call) and pyfront.call_name(c) == q:
-                    params = [a_.arg for a_ in f.args.args]
+                    params = [a_.arg for a_ in f0.args.args]
                     if pname in params and params.index(pname) < len(c.args):
                         a_ = c.args[params.index(pname)]
                         if isinstance(a_, ast.Subscript) and isinstance(a_.slice, ast.Slice) and a_.slice.lower is None \
@@ -446,17 +559,32 @@ def r5_lookback_complete(repo=None):
     if not back_ok:
         raise AnalysisError("%s: iteration of the look-back loop not recognised: %s" % (q, it))
     r.ok("%s:%s %s look-back loop over `%s`" % (m.rel, lp.lineno, q, it), "scans every earlier sub-directory from the nearest to the oldest")
-    g = m.cfg(q)
-    for b in [x for x in ast.walk(lp) if isinstance(x, ast.Break)]:
+    g = view.cfg()
+    flists = {n.targets[0].id for n in ast.walk(lp) if isinstance(n, ast.Assign) and isinstance(n.targets[0], ast.Name)
+              and isinstance(n.value, ast.Call) and pyfront.call_name(n.value) == DD}
+    # plain copies of those lists inside the loop (e.g. the result variable of an inlined helper)
+    changed = True
+    while changed:
+        changed = False
+        for n in ast.walk(lp):
+            if isinstance(n, ast.Assign) and isinstance(n.targets[0], ast.Name) and isinstance(n.value, ast.Name) \
+                    and n.value.id in flists and n.targets[0].id not in flists:
+                flists.add(n.targets[0].id)
+                changed = True
+    once_breaks = set()
+    for x in ast.walk(lp):
+        if isinstance(x, ast.For) and x is not lp and isinstance(x.target, ast.Name) and x.target.id.startswith("__once_"):
+            once_breaks |= {id(b_) for b_ in ast.walk(x) if isinstance(b_, ast.Break)}
+    for b in [x for x in ast.walk(lp) if isinstance(x, (ast.Break, ast.Return)) and id(x) not in once_breaks]:
         bn = [n for n in g.nodes if n.ast is b]
-        flists = [n.targets[0].id for n in ast.walk(lp) if isinstance(n, ast.Assign) and isinstance(n.targets[0], ast.Name)
-                  and isinstance(n.value, ast.Call) and pyfront.call_name(n.value) == "_decorate_drf_files"]
         if bn and flists and any(pyutil.truth_guarded(g, bn[0].id, v) for v in flists):
-            r.ok("%s:%s %s" % (m.rel, b.lineno, q), "the loop stops only when the matching files of that sub-directory (`%s`) are non-empty" % flists[0])
+            r.ok("%s:%s %s" % (m.rel, b.lineno, q), "the loop is left only when the matching files of that sub-directory (`%s`) are non-empty" % sorted(flists)[0])
+        elif not bn:
+            raise AnalysisError("%s: exit of the look-back loop not found in the CFG" % q)
         else:
-            r.violation(m.rel, q, "break in the look-back loop not guarded by a non-empty file list", "the search for the latest "
-                        "metadata file before the start time stops at an empty (or tmp-only) sub-directory, so the forward-fill file "
-                        "is missing from the listing", line=b.lineno)
+            r.violation(m.rel, q, "%s in the look-back loop not guarded by a non-empty file list" % ("break" if isinstance(b, ast.Break) else "return"),
+                        "the search for the latest metadata file before the start time stops at an empty (or tmp-only) sub-directory, so "
+                        "the forward-fill file is missing from the listing", line=b.lineno)
     r.guard(2)
     return r
 
